@@ -68,7 +68,15 @@ Next ==
 
 Spec == MCInit2 /\ [][Next]_vars
 
+\* random walks that feed the L1 driver (TLC -simulate): calls the system refuses outright are
+\* dropped except for I/O and snapshots (a refused write is what C03 is about), otherwise a walk
+\* spends itself on requests nothing reacts to
+
 View == <<cmode, readOnly, rwCount, checkpoint, reg, maxRev, signalled, pcAdd, monWait, monNote,
           rstate, rmode, rrev, rreb, rsnaps, rcp, rlog, rsnapAt, acked, nextW, sig>>
 Bound == \A a \in Addr : monNote[a] <= 1 /\ rrev[a] <= 4
+
+\* a step of a walk changes the state (requests nothing reacts to are left to the seeded generator)
+SimStep == View' # View
+SimSpec == MCInit2 /\ [][Next /\ SimStep]_vars
 =============================================================================
